@@ -22,10 +22,10 @@ func init() {
 		ID:    "C05",
 		Level: "exploration",
 		Rule: "batches of type-1/type-2 requests handed to the generic batch issuer after crossing the wire (client Marshal -> BatchedTokenRequest.Unmarshal) or, every third batch, handed over in memory (where malformed elements may also be shorter than an element, empty, nil or a short view into longer storage): every sequence of length 1..3 (quick) / 1..4 (thorough) over 8 request kinds " +
-			"{type1 key A, type1 key A', type1 unknown key id, type1 malformed element (A), type1 malformed element (A'), type2 key B, type2 unknown key id, type2 malformed element} under 8 issuer configurations ({A}, {B}, {A,A',B}, two with an always-refusing issuer of the same type and truncated key id registered before / after the real one, none at all, the same issuer twice, another order), a sweep of the unknown-key-id kinds over every truncated key id no configured issuer carries, plus seeded sequences of length 5..40 and large batches of 63..128 requests (response lists around the 16384-byte varint boundary). " +
+			"{type1 key A, type1 key A', type1 unknown key id, type1 malformed element (A), type1 malformed element (A'), type2 key B, type2 unknown key id, type2 malformed element} under 9 issuer configurations ({A}, {B}, {A,A',B}, two with an always-refusing issuer of the same type and truncated key id registered before / after the real one, none at all, the same issuer twice, another order), a sweep of the unknown-key-id kinds over every truncated key id no configured issuer carries, plus seeded sequences of length 5..40 and large batches of 63..128 requests (response lists around the 16384-byte varint boundary). " +
 			"Oracle = executable model: entry i present iff some configured issuer has the request's type and last key-id byte and its own Evaluate of that request succeeds; the output decodes, has exactly n entries in order, present entries finalize under state i to a token valid under that issuer's key (circl FullEvaluate / rsa.VerifyPSS), absent ones are empty; the succeeding requests alone give an all-present batch. " +
 			"distinct_nontrivial = distinct (configuration, kind sequence) batches containing at least one failing and one succeeding request",
-		Floors:      []string{"batches_checked", "entries_present_valid", "entries_absent", "mixed_batches", "all_failing_batches", "all_succeeding_batches", "isolation_rechecked", "large_batches", "batches_handed_over_in_memory", "unknown_key_id_sweep"},
+		Floors:      []string{"batches_checked", "entries_present_valid", "entries_absent", "mixed_batches", "all_failing_batches", "all_succeeding_batches", "isolation_rechecked", "large_batches", "batches_handed_over_in_memory", "unknown_key_id_sweep", "colliding_working_issuers_first_configured_serves"},
 		Assumptions: []string{"configured issuers of one type have pairwise different last key-id bytes and unknown keys differ from all of them (truncated-id collisions are outside the statement)"},
 		Run:         runC05,
 	})
@@ -52,6 +52,7 @@ type c05World struct {
 	kA, kAp, kU *oprf.PrivateKey
 	rB, rU      *rsa.PrivateKey
 	issA, issAp *type1.BasicPrivateIssuer
+	issAcoll    *type1.BasicPrivateIssuer
 	issB        *type2.BasicPublicIssuer
 	configs     [][]batched.Issuer
 	cfgNames    []string
@@ -133,7 +134,18 @@ func (w *c05World) setup() {
 		[]batched.Issuer{batchIssuer1{w.issA}, batchIssuer1{w.issA}},                        // the same issuer configured twice
 		[]batched.Issuer{batchIssuer2{w.issB}, batchIssuer1{w.issAp}, batchIssuer1{w.issA}}, // types and keys in another order
 	)
-	w.cfgNames = []string{"{A}", "{B}", "{A,A',B}", "{refuse(A),A,refuse(B),B}", "{A,refuse(A),B,refuse(B),refuse(A')}", "{}", "{A,A}", "{B,A',A}"}
+	// a second WORKING type-1 issuer whose key id ends in the same byte as A's, configured BEHIND A: requests made for A are
+	// evaluated by A (the first configured issuer that answers for the id). Requests made for the second one are outside
+	// the statement (both would evaluate them "successfully") and are not generated.
+	for j := 0; ; j++ {
+		kc := VOPRFKey(oprf.SuiteP384, append([]byte{byte(j), byte(j >> 8)}, r.Bytes(30)...))
+		if lastByte(RefVOPRFKeyID(kc)) == lastByte(RefVOPRFKeyID(w.kA)) {
+			w.issAcoll = type1.NewBasicPrivateIssuer(kc)
+			break
+		}
+	}
+	w.configs = append(w.configs, []batched.Issuer{batchIssuer1{w.issA}, batchIssuer1{w.issAcoll}, batchIssuer2{w.issB}, batchIssuer1{w.issAp}})
+	w.cfgNames = []string{"{A}", "{B}", "{A,A',B}", "{refuse(A),A,refuse(B),B}", "{A,refuse(A),B,refuse(B),refuse(A')}", "{}", "{A,A}", "{B,A',A}", "{A,collides-with-A,B,A'}"}
 }
 
 func (w *c05World) mkReq(kind c05Kind, r *core.Rand, inMemory bool) *c05Req {
@@ -431,7 +443,16 @@ func runC05(c *core.Ctx) {
 			}
 		}
 	}
-	c.Exhaustive(fmt.Sprintf("all request-kind sequences of length 1..%d over 8 kinds under 8 issuer configurations", maxLen))
+	c.Exhaustive(fmt.Sprintf("all request-kind sequences of length 1..%d over 8 kinds under 9 issuer configurations", maxLen))
+	// many batches under the configuration with two working issuers sharing a truncated key id (an order that depends on
+	// map iteration, or "the last one wins", shows only in some of them)
+	for rep := 0; rep < c.Pick(48, 600); rep++ {
+		if !c.Next() {
+			continue
+		}
+		w.runBatch(8, []c05Kind{k1A, k2B, k1A, k1Ap}, c.CaseRng(), false, rep%3 == 1)
+		c.Class("colliding_working_issuers_first_configured_serves")
+	}
 	// the batch client given nothing, or a request of a type the generic batch does not carry: an error, or a batch the
 	// decoder refuses - never a panic, never a batch that decodes with that request in it
 	if c.Next() {
